@@ -93,6 +93,23 @@ func hostOn(t *testing.T, metric string, shards, want int, taken map[string]bool
 	return ""
 }
 
+// tagsOn returns a tag set {key=<value>} whose series of the metric is routed to the wanted shard.
+func tagsOn(t *testing.T, metric, key, prefix string, shards, want int) map[string]string {
+	t.Helper()
+	for i := 0; i < 200; i++ {
+		tags := map[string]string{key: fmt.Sprintf("%s%d", prefix, i)}
+		rt, err := routeBatch([]*protoMetricsV1.Metric{pm(metric, baseTime, tags, sf("x", protoMetricsV1.SimpleFieldType_DELTA_SUM, 1))}, shards, timeutil.Interval(storageIntervalMs))
+		if err != nil {
+			t.Fatal(err)
+		}
+		if int(rt[0].shard) == want {
+			return tags
+		}
+	}
+	t.Fatalf("no %s value for shard %d of %d", key, want, shards)
+	return nil
+}
+
 func fullRange() string {
 	return fmt.Sprintf("time>='%s' and time<='%s'", fmtTime(baseTime-60_000), fmtTime(baseTime+420_000))
 }
@@ -191,6 +208,31 @@ func TestRegression_TwoFunctionsOfOneFieldMixAggregates(t *testing.T) {
 		sql, ref[key]["sum(s1)"][baseTime], ref[key]["max(s1)"][baseTime], two[key]["sum(s1)"][baseTime], two[key]["max(s1)"][baseTime],
 		mid[key]["sum(s1)"][baseTime], mid[key]["max(s1)"][baseTime])
 	verdict(t, sigMultiFunc, !mid.Equal(ref) || !two.Equal(ref) || ref[key]["sum(s1)"][baseTime] != 2, what)
+}
+
+// A leaf whose series of the metric never carried one of the tag keys of the condition fails the
+// whole condition with "tag key not found" (tagValuesLookup), although no series there can match that
+// atom and the other side of an OR does match: the root tolerates the error as "no data on this node".
+func TestRegression_UnknownTagKeyOnLeafFailsWholeCondition(t *testing.T) {
+	a, b := tagsOn(t, "cpu", "zone", "z", 2, 0), tagsOn(t, "cpu", "host", "h", 2, 1)
+	d := &dataset{
+		Metrics: []metricDef{{Name: "cpu", TagKeys: []string{"host", "zone"}, Ragged: true, Fields: []fieldDef{{"s1", tSum}}}},
+		Series:  []seriesDef{{Metric: 0, Tags: a, Fields: []int{0}}, {Metric: 0, Tags: b, Fields: []int{0}}},
+		Batches: [][]point{{{Series: 0, Slot: 0, Vals: map[int]float64{0: 1}}, {Series: 1, Slot: 0, Vals: map[int]float64{0: 2}}}},
+	}
+	e, ls := fixture(t, d, []string{"root"}, &layoutSpec{Shards: 2, Nodes: [][]int{{0}, {1}}}, &layoutSpec{Shards: 2, Nodes: [][]int{{0, 1}}})
+	sql := fmt.Sprintf("select s1 from cpu where (zone='%s' or host='%s') and %s", a["zone"], b["host"], fullRange())
+	ref := e.direct(t, ls[0].db, sql)
+	if ref[""]["s1"][baseTime] != 3 {
+		t.Fatalf("harness: reference\n%s", ref)
+	}
+	if one := e.direct(t, ls[2].db, sql); !one.Equal(ref) {
+		t.Fatalf("two shards on one node:\n%s", one)
+	}
+	e.xc.Compute, e.xc.Order = nil, nil
+	rs, err := e.xc.Query("root:1", ls[1].db, sql)
+	got := node.Canon(rs)
+	verdict(t, sigUnknownTagKey, err != nil || !got.Equal(ref), fmt.Sprintf("%s\none node: s1=3\ntwo nodes (one only has the series with zone, the other only the series with host): err=%v %+v\n%s", sql, err, e.xc.observed(), got))
 }
 
 // ---- the plans of the production state manager --------------------------------------------------------
